@@ -3,7 +3,7 @@ faults, run through the real release binary (feature off) or through the in-proc
 harness (`vharness cdedb-read`). Every random choice derives from random.Random(seed)."""
 import json, os, random, subprocess, copy, struct, re, shutil, stat, tempfile, hashlib
 
-STREAMS = {"cdedb-read", "cdedb-pairs", "e2e-cde", "cli-simple", "cli-malformed", "cli-fault"}
+STREAMS = {"cdedb-read", "cdedb-pairs", "e2e-cde", "cli-simple", "cli-malformed", "cli-fault", "cli-main"}
 
 VERIF = os.path.dirname(os.path.dirname(os.path.abspath(__file__)))
 HARNESS_EXE = os.path.join(VERIF, "build", "harness-target", "debug", "vharness")
@@ -1430,9 +1430,161 @@ def lines_cli_fault(cases, workdir, stream, binary):
 
 # --------------------------------------------------------------------------------------------------
 
+# --------------------------------------------------------------------------------------------------
+# stream: cli-main (C15, C10): main.rs as a whole. Option / environment / document combinations with
+# zero, one or SEVERAL things wrong at once — which status wins is the stage order of main.rs — are run
+# through the real binary and compared with the Lean model of the whole front of main (`MainM.front`,
+# driver op MF): the exit status when the run ends before the solver, else the numbers of participants
+# and courses main.rs logs before it calls the solver.
+
+def stream_cli_main(seed, tier, workdir, stream):
+    r = random.Random(seed * 86028121 + 29)
+    n = scale(tier, 90, 1500)
+    cases = []
+    for k in range(n):
+        c = {"kind": "main", "faults": []}
+        nf = r.choice([0, 0, 1, 1, 1, 2, 2, 3])
+        pool = ["threads-0", "rooms", "roomsfile", "both-rooms", "input", "doc", "track"]
+        faults = r.sample(pool, nf)
+        cde = r.random() < 0.45
+        if "track" in faults and not cde:
+            cde = True
+        c["cde"] = cde
+        if cde:
+            for attempt in range(30):
+                doc, opts, info = gen_export(r, rich=r.random() < 0.5)
+                if "doc" in faults:
+                    what = corrupt_export(r, doc, opts, info)
+                    if what is None or what == "tracks-missing-in-part?":
+                        continue
+                    c["docfault"] = what
+                break
+            else:
+                faults = [f for f in faults if f != "doc"]
+            c["doc"], c["opts"] = doc, opts
+            c["track"] = None if opts["track"] is None else str(opts["track"])
+            if "track" in faults:
+                c["track"] = r.choice(["three", "", "1.0", "-1", "18446744073709551616", "0x1", " 1", "1 "])
+            elif c["track"] is not None and r.random() < 0.2:
+                c["track"] = r.choice(["+", "0", "00"]) + c["track"] if r.random() < 0.7 else c["track"]
+        else:
+            doc, _ = gen_simple(r, rooms_mode=0)
+            if "doc" in faults:
+                what, doc = corrupt_simple(r, doc)
+                c["docfault"] = what
+            c["doc"] = doc
+        c["input"] = "ok"
+        if "input" in faults:
+            c["input"] = r.choice(["missing", "missing", "missing", "empty", "truncated", "not-json"])
+        c["threads"] = 0 if "threads-0" in faults else r.choice([None, 1, 1, 2, 3])
+        c["rooms"], c["roomsfile"] = None, None
+        if "both-rooms" in faults:
+            c["rooms"] = r.choice(["10,8", "x", ""])
+            c["roomsfile"] = r.choice([{"json": []}, "missing", "garbage", {"json": [{"name": "A", "capacity": 10, "quantity": 2}]}])
+        else:
+            if "rooms" in faults:
+                c["rooms"] = r.choice(["10,abc", "10,,5", "", "5;4", "1.5", "3, 4", "99999999999999999999", "١٢", "+", "4,"])
+            elif "roomsfile" in faults:
+                c["roomsfile"] = r.choice(["missing", "missing", "missing", "garbage", {"json": {"rooms": []}}, {"json": [{"name": "A", "capacity": "ten", "quantity": 1}]},
+                                           {"json": [{"name": "A", "capacity": 10}]}, {"json": None}, {"json": [["A", 10]]}, {"json": [{"name": 1, "capacity": 1, "quantity": 1}]}])
+            else:
+                m = r.randrange(4)
+                if m == 1:
+                    c["rooms"] = ",".join(r.choice(["", "+", "0"]) + str(r.randint(0, 30)) for _ in range(r.randint(1, 6)))
+                elif m == 2:
+                    c["roomsfile"] = {"json": [r.choice([{"name": f"K{i}", "capacity": r.randint(0, 30), "quantity": r.randint(0, 3), "x": 1},
+                                                         [f"K{i}", r.randint(0, 30), r.randint(0, 3)]]) for i in range(r.randint(0, 4))]}
+        c["print"] = r.random() < 0.3
+        c["output"] = r.random() < 0.7
+        c["faults"] = sorted(faults)
+        cases.append(c)
+    return cases
+
+
+def lines_cli_main(cases, workdir, stream, binary):
+    out = []
+    d = tempfile.mkdtemp(prefix="clmn", dir=workdir)
+    try:
+        for i, c in enumerate(cases):
+            out.append({"kind": "case", "stream": stream, "case": i, "corpus": False, "data": c})
+            inp = os.path.join(d, "in.json"); outp = os.path.join(d, "out.json"); rf = os.path.join(d, "rooms.json")
+            for f in (inp, outp, rf):
+                if os.path.exists(f):
+                    os.remove(f)
+            raw = json.dumps(c["doc"], ensure_ascii=False).encode("utf-8")
+            payload = {"cde": c["cde"], "print": c["print"], "output": c["output"], "cpus": 1}
+            if c["input"] == "missing":
+                payload["input"] = "missing"
+            else:
+                data = {"ok": raw, "empty": b"", "truncated": raw[: max(1, len(raw) // 2)], "not-json": b"participants: []\n"}[c["input"]]
+                open(inp, "wb").write(data)
+                payload["input"] = {"doc": tag(c["doc"])} if c["input"] == "ok" else "notjson"
+            args = []
+            if c["cde"]:
+                o = c["opts"]
+                args.append("--cde")
+                if c["track"] is not None:
+                    args.append("--track=" + c["track"]); payload["track"] = c["track"]
+                if o["ic"]:
+                    args.append("--ignore-cancelled")
+                if o["ia"]:
+                    args.append("--ignore-assigned")
+                if o["rff"]:
+                    args += ["--room-factor-field", o["rff"]]
+                if o["rof"]:
+                    args += ["--room-offset-field", o["rof"]]
+                payload.update({"ic": o["ic"], "ia": o["ia"], "rff": o["rff"], "rof": o["rof"]})
+            if c["threads"] is not None:
+                args += ["--num-threads", str(c["threads"])]; payload["threads"] = c["threads"]
+            if c["rooms"] is not None:
+                args.append("--rooms=" + c["rooms"]); payload["rooms"] = c["rooms"]
+            if c["roomsfile"] is not None:
+                args += ["--rooms-file", rf]
+                if c["roomsfile"] == "missing":
+                    payload["roomsfile"] = "missing"
+                elif c["roomsfile"] == "garbage":
+                    open(rf, "w").write("[{\"name\": \"A\", \"capacity\": "); payload["roomsfile"] = "notjson"
+                else:
+                    json.dump(c["roomsfile"]["json"], open(rf, "w")); payload["roomsfile"] = {"doc": tag(c["roomsfile"]["json"])}
+            if c["print"]:
+                args.append("--print")
+            args.append(inp)
+            if c["output"]:
+                args.append(outp)
+            # without --num-threads the process is pinned to one CPU: the default worker count is then 1
+            rc, so, se, to = run_bin(binary, args, pin=c["threads"] is None, timeout=20)
+            panicked = "panicked" in se
+            wrote = os.path.exists(outp)
+            m = re.search(r"Found (\d+) courses and (\d+) participants", se)
+            if to or panicked or rc is None:
+                observed = f"timeout={to} panicked={panicked} exit={rc}"
+            elif rc in (64, 65, 66) and not m:
+                observed = f"exit={rc}"
+            elif rc == 65 and m:
+                observed = "exit=65"      # refused after the counts were logged (no participants)
+            elif rc in (0, 1) and m:
+                observed = f"solver P={m.group(2)} C={m.group(1)} "
+            else:
+                observed = f"exit={rc} found-line={bool(m)}"
+            feat = [f"faults={len(c['faults'])}", "fmt=" + ("cde" if c["cde"] else "simple")] + [f"fault:{f}" for f in c["faults"]] + [f"exit={rc}"]
+            if c["faults"]:
+                ok = (not to) and (not panicked) and rc in (64, 65, 66) and "ERROR" in se and not wrote and so == ""
+                out.append(line("direct", ["C15"], ok=ok, what=f"malformed ({c['faults']}, {c.get('docfault')}): exit {rc}, timeout {to}, output file {wrote}, stdout {len(so)} bytes, stderr tail: {se[-250:]}",
+                                case=i, stream=stream, feat=feat))
+            else:
+                ok = (not to) and (not panicked) and rc in (0, 1, 65) and (wrote == (rc == 0 and c["output"]))
+                out.append(line("direct", ["C10"], ok=ok, what=f"well-formed run: exit {rc}, timeout {to}, panicked {panicked}, output file {wrote} (requested {c['output']}), stderr tail: {se[-250:]}",
+                                case=i, stream=stream, feat=feat, nontrivial=rc in (0, 1)))
+            out.append(line("corr", ["C15", "C10", "C16"], "MF", json.dumps(payload, ensure_ascii=False), "PREFIX:" + observed, case=i, stream=stream,
+                            feat=["mf:" + observed.split(" ")[0]]))
+    finally:
+        shutil.rmtree(d, ignore_errors=True)
+    return out
+
+
 def run(stream, seed, tier, binary, workdir, corpus, replay_case=None):
     gens = {"cdedb-read": stream_cdedb_read, "cdedb-pairs": stream_cdedb_pairs, "e2e-cde": stream_e2e_cde,
-            "cli-simple": stream_cli_simple, "cli-malformed": stream_cli_malformed, "cli-fault": stream_cli_fault}
+            "cli-simple": stream_cli_simple, "cli-malformed": stream_cli_malformed, "cli-fault": stream_cli_fault, "cli-main": stream_cli_main}
     if replay_case is not None:
         cases = [replay_case]
     else:
@@ -1459,4 +1611,6 @@ def run(stream, seed, tier, binary, workdir, corpus, replay_case=None):
         return lines_cli_malformed(cases, workdir, stream, binary)
     if stream == "cli-fault":
         return lines_cli_fault(cases, workdir, stream, binary)
+    if stream == "cli-main":
+        return lines_cli_main(cases, workdir, stream, binary)
     raise RuntimeError("unknown cli stream " + stream)
